@@ -159,4 +159,94 @@ theorem G0.suspend (X : State) (p : Nat) : G0 X (vmSuspend X p) := by
     rcases hi with hi | hi <;> rw [hi] at hv' <;> cases hv'
   · exact hi
 
+/-! ### `Register(name, CurrentThread())` by the executing thread -/
+
+theorem regWait_inv {fuel : Nat} {W : List Nat} {s : State} {t : Nat} (top' : Option Nat) (o n : Nat)
+    (h : Inv [] W (some t) s)
+    (hrun : Tbl.hasOwner s.waitFor t = false →
+      ∃ th0, thFind s.threads t = some th0 ∧ th0.vm = .running ∧ th0.hasVM = true)
+    (ho : s.alive o = true) (hon : o < 100 ∨ n = 0)
+    (htop : top' = some t ∨ (n = 0 ∧ Tbl.hasOwner s.waitFor t = false)) :
+    Ok (regWait (stop fuel) s o n t)
+      (Inv [] W top' (regWait (stop fuel) s o n t) ∧ G0 s (regWait (stop fuel) s o n t) ∧
+        Tbl.hasOwner (regWait (stop fuel) s o n t).waitFor t = true ∧
+        ∀ l, (regWait (stop fuel) s o n t).alive l = s.alive l) := by
+  unfold regWait
+  simp only
+  by_cases hown : Tbl.hasOwner s.waitFor t = true
+  · -- a further name of `waittill_any`: the thread is already waiting
+    simp only [hown, Bool.not_true, Bool.false_eq_true, if_false]
+    obtain ⟨th, hth, hw⟩ : ∃ th, thFind s.threads t = some th ∧ th.ts = .waiting := by
+      rcases h.lnk.linkC t hown with m | m
+      · simp at m
+      · exact m
+    have hd : th.dead = false := by
+      cases hdd : th.dead with
+      | false => rfl
+      | true =>
+        have r := h.th t th hth
+        have := r.f1 (r.f2 hdd).1; rw [hw] at this; cases this
+    have ht' : top' = some t := by
+      rcases htop with e | ⟨_, e⟩
+      · exact e
+      · rw [hown] at e; cases e
+    apply Ok.pure
+    refine ⟨?_, G0.of_eq rfl rfl rfl, hasOwner_push_self _ h.n.wfW (t, n) o, fun l => rfl⟩
+    exact (h.consW t).register o n th hth hw hd ho hon (Or.inr (Or.inl ht'.symm)) (Or.inr (Or.inl ht'))
+  · have hown' : Tbl.hasOwner s.waitFor t = false := by simpa using hown
+    simp only [hown', Bool.not_false, if_true]
+    obtain ⟨th0, hth0, hvm0, hhv0⟩ := hrun hown'
+    have r0 := h.th t th0 hth0
+    have hts0 : th0.ts = .running := r0.f3 hvm0
+    have hd0 : th0.dead = false := by
+      cases hdd : th0.dead with
+      | false => rfl
+      | true => have := (r0.f2 hdd).1; rw [hhv0] at this; cases this
+    rcases stop_running fuel { s with notify := Tbl.push s.notify (o, n) t } t th0 hth0 hts0 with e | e
+    · rw [e, vmSuspend_setTh]
+      apply Ok.pure
+      -- the record of `t` becomes `waiting` / `suspended`
+      have h1 : Inv [] (t :: W) (some t) (s.setTh t (suspendAfter fun th => { th with ts := .waiting })) :=
+        h.setTh (C' := []) (W' := t :: W) (top' := some t) t (suspendAfter fun th => { th with ts := .waiting })
+          th0 s.timer hth0 (fun x => by rw [suspendAfter_parent])
+          ⟨fun hv => (by rw [suspendAfter_hasVM] at hv; simp only at hv; rw [hhv0] at hv; cases hv),
+            fun hdd => (by rw [suspendAfter_dead] at hdd; simp only at hdd; rw [hd0] at hdd; cases hdd),
+            fun hr => absurd hr (suspendAfter_vm_ne _ _),
+            fun hv => (by
+              rcases suspendAfter_vm (fun th => { th with ts := .waiting }) th0 with e1 | ⟨_, e1⟩
+              · rw [e1] at hv; simp only at hv; rw [hvm0] at hv; cases hv
+              · rw [e1] at hv; cases hv)⟩
+          (fun x => by rw [suspendAfter_dead])
+          (h.tim.setTh_off t _ (fun th1 h1 => by rw [hth0] at h1; cases h1; rw [hts0]; simp)
+            (fun x => by rw [suspendAfter_ts]; simp))
+          (fun x m _ => m) (fun x m _ => List.mem_cons_of_mem _ m) (Or.inr (Or.inl rfl))
+          (fun ho' => by rw [hown'] at ho'; cases ho')
+          (fun _ => Or.inl List.mem_cons_self)
+          (fun _ _ => Or.inr (fun n' hne => absurd ((h.n.wfW.hasOwner_false_iff t).1 hown' n') hne))
+      have hth1 : thFind (s.setTh t (suspendAfter fun th => { th with ts := .waiting })).threads t =
+          some (suspendAfter (fun th => { th with ts := .waiting }) th0) := by
+        rw [State.setTh_threads, thFind_map_upd]; simp [hth0]
+      have hal : ∀ l, (s.setTh t (suspendAfter fun th => { th with ts := .waiting })).alive l = s.alive l :=
+        State.alive_congr (fun l => aliveTh_map_upd _ _ _ (fun x => by rw [suspendAfter_dead]) l) rfl
+      have hreg := h1.register (top' := top') o n _ hth1 (by rw [suspendAfter_ts]) (by rw [suspendAfter_dead]; exact hd0)
+        (by rw [hal]; exact ho) hon
+        (by rcases htop with e1 | _
+            · exact Or.inr (Or.inl e1.symm)
+            · exact Or.inr (Or.inr rfl))
+        (by rcases htop with e1 | ⟨e1, _⟩
+            · exact Or.inr (Or.inl e1)
+            · exact Or.inr (Or.inr ⟨e1, hown'⟩))
+      refine ⟨hreg, ?_, hasOwner_push_self _ h.n.wfW (t, n) o, ?_⟩
+      · have g := G0.setTh s t (suspendAfter fun th => { th with ts := .waiting })
+          (fun x => by rw [suspendAfter_hasVM]) (fun x => by rw [suspendAfter_dead])
+          (fun th _ hi => by
+            rcases suspendAfter_vm (fun th => { th with ts := .waiting }) th with e1 | ⟨e1, _⟩
+            · rw [e1]; exact hi
+            · simp only at e1; rcases hi with hi | hi <;> rw [hi] at e1 <;> cases e1)
+        exact g.congr rfl rfl rfl rfl rfl rfl
+      · intro l
+        exact hal l
+    · rw [e]
+      exact Or.inl rfl
+
 end Morfuse.Sched
